@@ -80,12 +80,17 @@ structure Mut where
   st : SF
   images : List (String × Bytes)
 
-/-- `SpanFile.WriteRecord(recordID, dataStreams)` -/
-def writeRecord (s : SF) (rid : Bytes) (streams : List Stream) : Outcome Mut :=
-  let seqNum := s.seq
-  let seq' := (s.seq + 1) % 4294967296
+/-- first half of `WriteRecord`: serialize, allocate (growing the file when nothing fits), pad or
+    add a FREE header for the remainder, checksum, and store the bytes with one `writeAt` -/
+structure Placed where
+  offset : Nat
+  file : Bytes
+  free : List Sp
+  images : List (String × Bytes)
+
+def placeSpan (file : Bytes) (free : List Sp) (seqNum : Nat) (rid : Bytes) (streams : List Stream) : Outcome Placed :=
   let span0 := serializeSpan seqNum rid streams
-  let a := allocateSpan s.file s.free (span0.length + 4)
+  let a := allocateSpan file free (span0.length + 4)
   let imgs0 : List (String × Bytes) := if a.grew then [("grow", a.file)] else []
   let padded := decide (0 < a.remaining) && decide (a.remaining < minSpanLength)
   let free1 := if padded then markUsed a.free (a.offset + span0.length + 4) a.remaining else a.free
@@ -97,32 +102,46 @@ def writeRecord (s : SF) (rid : Bytes) (streams : List Stream) : Outcome Mut :=
   let span3 := if a.remaining ≥ minSpanLength then span2 ++ be32 freeMagic ++ be32 (a.remaining % 4294967296) else span2
   if a.offset + span3.length > a.file.length then .panic "writeAt: offset out of bounds" else
   let file1 := splice a.file a.offset span3
-  let imgs1 := imgs0 ++ [("writeAt", file1)]
-  match idxGet s.index rid with
-  | some old =>
-    match rd32At file1 (old + 4) with
-    | none => .err "record too short to contain length"
-    | some oldLen =>
-      if old + 4 > file1.length then .panic "markSpanAsFreed: slice bounds" else
-      let file2 := splice file1 old (be32 freeMagic)
-      let free2 := markFree free1 old oldLen
-      .ok { st := { file := file2, index := idxSet s.index rid a.offset, free := free2, seq := seq' },
-            images := imgs1 ++ [("markFreed", file2)] }
-  | none =>
-    .ok { st := { file := file1, index := idxSet s.index rid a.offset, free := free1, seq := seq' },
-          images := imgs1 }
+  .ok { offset := a.offset, file := file1, free := free1, images := imgs0 ++ [("writeAt", file1)] }
+
+/-- `markSpanAsFreed(offset)` + `freeMap.markFree(offset, length)`: the length is read from the span's
+    own header, then the magic is overwritten -/
+def retireSpan (file : Bytes) (free : List Sp) (off : Nat) : Outcome (Bytes × List Sp) :=
+  match rd32At file (off + 4) with
+  | none => .err "record too short to contain length"
+  | some len =>
+    if off + 4 > file.length then .panic "markSpanAsFreed: slice bounds" else
+    .ok (splice file off (be32 freeMagic), markFree free off len)
+
+/-- `SpanFile.WriteRecord(recordID, dataStreams)` -/
+def writeRecord (s : SF) (rid : Bytes) (streams : List Stream) : Outcome Mut :=
+  let seq' := (s.seq + 1) % 4294967296
+  match placeSpan s.file s.free s.seq rid streams with
+  | .panic m => .panic m
+  | .err m => .err m
+  | .ok p =>
+    match idxGet s.index rid with
+    | some old =>
+      match retireSpan p.file p.free old with
+      | .panic m => .panic m
+      | .err m => .err m
+      | .ok (file2, free2) =>
+        .ok { st := { file := file2, index := idxSet s.index rid p.offset, free := free2, seq := seq' },
+              images := p.images ++ [("markFreed", file2)] }
+    | none =>
+      .ok { st := { file := p.file, index := idxSet s.index rid p.offset, free := p.free, seq := seq' },
+            images := p.images }
 
 /-- `SpanFile.RemoveRecord(recordID)` -/
 def removeRecord (s : SF) (rid : Bytes) : Outcome Mut :=
   match idxGet s.index rid with
   | none => .err "record not found"
   | some off =>
-    match rd32At s.file (off + 4) with
-    | none => .err "record too short to contain length"
-    | some len =>
-      if off + 4 > s.file.length then .panic "markSpanAsFreed: slice bounds" else
-      let file1 := splice s.file off (be32 freeMagic)
-      .ok { st := { s with file := file1, free := markFree s.free off len, index := idxDel s.index rid },
+    match retireSpan s.file s.free off with
+    | .panic m => .panic m
+    | .err m => .err m
+    | .ok (file1, free1) =>
+      .ok { st := { s with file := file1, free := free1, index := idxDel s.index rid },
             images := [("markFreed", file1)] }
 
 /-- `SpanFile.ReadRecord(recordID)` -/
